@@ -55,7 +55,7 @@ CLAIMED = {
    "(keyword, or optional sign then a digit / a dot and a digit / an infinity spelling): (R) if the real reader functions parse_int / parse_float "
    "resolve an ASCII string to a number, the string is number-like (all strings of length 1..4 for integers, 1..2 for floats, 3 thorough); (W) every "
    "keyword- or number-like ASCII string of length 1..3 (4 thorough) is quoted by the real must_quote, and so is every such string in the families "
-   "`.xxx` (4 bytes), sign + `.xxx` (5 bytes: the signed infinities) and `f`/`F` + 4 bytes (`false`), family prefix concrete, rest symbolic. R and W give: a text string written as a plain "
+   "`.xxx` (4 bytes), sign + `.xxx` (5 bytes: the signed infinities) and `f`/`F` + 4 bytes (`false`), family prefix concrete, rest symbolic; for the sign + `.xxx` family R is decided too (parse_int, parse_float on all 2 x 2^21 strings). R and W give: a text string written as a plain "
    "scalar is read back as a string. Narrow: saphyr's scanner between writer and reader, non-ASCII and longer strings, byte strings, keys, special "
    "floats, the reader's own schema conformance (e.g. `0x+f`), CBOR, TOML, XML, CSV/TSV and --from/--to are outside the claim.",
    "Stubs: Num::from_str_radix by a sign-and-digits model, <Num as Neg>::neg by the identity, alloc::fmt::format; the reader's keyword list is restated in the model. "
